@@ -7,8 +7,10 @@ From Coq Require Import Permutation.
 Local Open Scope N_scope.
 
 (* the hypotheses of C12_rule_string *)
+(* the hypotheses of C12_rule_string on the values; the rule without any
+   constraint (text '') is allowed *)
 Definition good_rule (r : rule) : Prop :=
-  r <> empty_rule /\ values_clean c_comma r = true /\ values_clean c_eq r = true.
+  values_clean c_comma r = true /\ values_clean c_eq r = true.
 
 Definition good_history (h : list cevent) : Prop :=
   forall r k, In (CAdd r k) h -> good_rule r /\ cb_acts k = [].
@@ -19,7 +21,14 @@ Definition texts_of (l : list (nat * rule * cbk)) : list (nat * str) :=
 Lemma rule_of_text_good r :
   good_rule r -> rule_of_text (rule_string r) = if registrable r then Some r else None.
 Proof.
-  intros (H1 & H2 & H3). unfold rule_of_text. rewrite (rule_string_round_trip r H1 H2 H3). reflexivity.
+  intros (H2 & H3). unfold rule_of_text.
+  destruct (rule_items r) as [|it items] eqn:E.
+  - rewrite (rule_items_nil r E). reflexivity.
+  - assert (H1 : r <> empty_rule) by (intro X; rewrite X in E; discriminate E).
+    pose proof (rule_string_round_trip r H1 H2 H3) as RT.
+    destruct (rule_string r) as [|c t] eqn:Es.
+    + vm_compute in RT. discriminate RT.
+    + rewrite RT. reflexivity.
 Qed.
 
 (* ---- histories grown at the end ------------------------------------------------------ *)
@@ -295,9 +304,33 @@ Proof.
   split.
   - intros r k H. cbn in H.
     repeat (destruct H as [H|H]; [try discriminate H; injection H as <- <-; (split; [|reflexivity]);
-                                  (split; [discriminate | split; vm_compute; reflexivity])|]).
+                                  (split; vm_compute; reflexivity)|]).
     destruct H.
   - vm_compute. repeat split; reflexivity.
+Qed.
+
+(* non-vacuity: the rule without constraints (text '') added, removed,
+   added again, with signals in between *)
+Definition w_catch_all : list cevent :=
+  [ CAdd empty_rule (passive 1 false); CSignal (w_sig w_ab None); CDel 0%nat; CSignal (w_sig w_ab None);
+    CAdd empty_rule (passive 2 true); CSignal (w_sig w_abc None); CDel 0%nat; CDel 1%nat;
+    CSignal (w_sig w_ab None) ].
+
+Lemma w_catch_all_ok :
+  good_history w_catch_all /\
+  ctrace w_catch_all =
+    [ OCAdded [WAdd []] (Ok 0%nat); OCSignal true [(0%nat, 1)];
+      OCDeleted [WRemove []] (Ok tt); OCSignal false [];
+      OCAdded [WAdd []] (Ok 1%nat); OCSignal true [(1%nat, 2)];
+      OCDeleted [] (Err EKey); OCDeleted [WRemove []] (Ok tt);
+      OCSignal false [] ].
+Proof.
+  split.
+  - intros r k H. cbn in H.
+    repeat (destruct H as [H|H]; [try discriminate H; injection H as <- <-; (split; [|reflexivity]);
+                                  (split; vm_compute; reflexivity)|]).
+    destruct H.
+  - vm_compute. reflexivity.
 Qed.
 
 Theorem client_daemon_agree_perm h :
